@@ -1127,13 +1127,22 @@ class Gen:
             raise AnchorLost(str(e))
         if part:
             types = [td for i_, td in enumerate(types) if i_ % part[1] == part[0] - 1]
-        common, items = gen_recurse.generate_fold(types, exp) if fold else gen_recurse.generate(types, exp, None)
+        leaf_ok = tuple(kv["leaf_ok"].split(",")) if kv.get("leaf_ok") else ()
+        first_part = (part is None or part[0] == 1)
+        common, items = gen_recurse.generate_fold(types, exp, leaf_ok, first_part) if fold else gen_recurse.generate(types, exp, None, leaf_ok, first_part)
         self.notes.append("recurse_visit / recurse_fold bodies are taken from the compiler's macro expansion of the current tree (RUSTC_BOOTSTRAP=1 cargo rustc -p ironplc-dsl -- -Zunpretty=expanded); contracts are generated from the type definitions (fields, containers, #[recurse(ignore)])")
         self.emit(common)
         for td, text, rewrites, ens in items:
-            ident = "%s::%s" % (td["name"], "recurse_fold" if fold else "recurse_visit")
+            if td.get("default"):
+                ident = "%s::%s(default)" % (td["name"], td["method"])
+                vs = src(td["rel"])
+                lm_ = re.search(r"^[ \t]*(dispatch|leaf)!\(\s*" + re.escape(td["node"]) + r"\s*\)", vs.text, re.M)
+                td["lines"] = [vs.line_of(lm_.start()), vs.line_of(lm_.end())] if lm_ else [1, 1]
+                td["def_text"] = lm_.group(0) if lm_ else ""
+            else:
+                ident = "%s::%s" % (td["name"], "recurse_fold" if fold else "recurse_visit")
             it = Item(self.unit + "/" + ident, "method", list(self.props_default), td["rel"], td["lines"], sha(td["def_text"] + text))
-            it.name = ("recurse_fold_of_" if fold else "recurse_visit_of_") + td["name"]  # none of these functions calls another (they call the visitor)
+            it.name = (("default_" + td["method"]) if td.get("default") else (("recurse_fold_of_" if fold else "recurse_visit_of_") + td["name"]))  # none of these functions calls another (they call the visitor)
             it.body_text = mask(text)
             for e in ens:
                 it.clauses["ensures"].append(e)
